@@ -12,10 +12,13 @@ the theorems here are SUPPORTING results about the model:
     (`transfer_never_to_same_engine`);
   * the documented no-op calls return the relation itself in an iteration engine
     (`noop_calls_return_self`), and ill-formed calls raise (`Props/C20`).
-Not proved: the SQL engine's `_append_*_to_select` / `conform` (fuel-based mutual recursion) and
-back-tracking across engines.
+  * inside the SQL engine, a unary operation applied to any raw SQL tree, and conforming one, return a
+    well-formed relation in the same engine (`sql_apply_wellformed`, `sql_conform_wellformed`; from the
+    induction over the engine's mutual tree-building recursion in `Lemmas/ConformSound.lean`).
+Not proved: the SQL engine's `join` factory path and back-tracking across engines.
 -/
 import DafRel.Lemmas.Build
+import DafRel.Lemmas.ConformSound
 
 namespace DafRel.Props.C14
 
@@ -214,5 +217,17 @@ theorem noop_calls_return_self (st : Store) (fuel : Nat) (op : UOp) (t : Rel) (h
   | proj c =>
     simp only [UOp.noopOn] at hn
     simp [UOp.beginApply, hn, finishApply_identity]
+
+theorem sql_apply_wellformed (σ : Leaves) (st : Store) (fuel : Nat) (op : UOp) (t : Rel) (res : Res)
+    (hwf : t.WF) (htr : t.Truthful σ) (hraw : t.RawSql) (h : applyOp st fuel (.u op) t {} = .ok res) :
+    (res.get t).WF ∧ (res.get t).engine = t.engine :=
+  let F := ((treeBuild_sound σ st fuel).apply op t res (raw_good σ t hwf htr hraw) h).2
+  ⟨F.wf, F.engine⟩
+
+theorem sql_conform_wellformed (σ : Leaves) (st : Store) (fuel : Nat) (t : Rel) (res : Res)
+    (hwf : t.WF) (htr : t.Truthful σ) (hraw : t.RawSql) (h : conform st fuel t = .ok res) :
+    (res.get t).WF ∧ (res.get t).engine = t.engine ∧ (res.get t).isSelect = true :=
+  let C := ((treeBuild_sound σ st fuel).conform t res (raw_good σ t hwf htr hraw) h).2
+  ⟨C.ok.wf, C.engine, C.ok.isSel⟩
 
 end DafRel.Props.C14
